@@ -33,6 +33,10 @@ async def scenario(ev, A, P, N, backlog, durs, stop_at, wtt, arrivals=None, faul
     from taskiq.receiver import Receiver
     from taskiq import AckableMessage
     AsyncBroker.global_task_registry = {}
+    import taskiq.receiver.receiver as _rm
+    _qd = getattr(_rm, 'QUEUE_DONE', b"-1")
+    # a payload EQUAL to the marker but cut out of a larger buffer, as a broker reading frames off a socket produces it
+    SENTINEL_COPY = (b'..' + bytes(_qd))[2:] if isinstance(_qd, (bytes, bytearray)) else (''.join(list(_qd)) if isinstance(_qd, str) else b"-1")
     loop = asyncio.get_event_loop()
     class B(AsyncBroker):
         def __init__(self): super().__init__(); self.q = asyncio.Queue()
@@ -42,11 +46,14 @@ async def scenario(ev, A, P, N, backlog, durs, stop_at, wtt, arrivals=None, faul
             while True:
                 m = await self.q.get(); i = n; n += 1
                 if fault == 'sentinel_payload' and i == 2:
-                    ev.append(('malformed', -1, loop.time())); yield b"-1"          # a malformed raw message (delivered before message 2) whose payload happens to equal the internal end-of-stream marker
+                    ev.append(('malformed', -1, loop.time())); yield SENTINEL_COPY          # a malformed raw message (delivered before message 2) whose payload happens to equal the internal end-of-stream marker
                 ev.append(('taken', i, loop.time()))
                 def ack(i=i):
+                    if fault == 'ack_future':          # the acknowledgement is an awaitable that is not a coroutine (a Future, as `loop.run_in_executor(None, sync_ack)` returns): it completes a little later
+                        fut = loop.create_future(); loop.call_later(0.05, lambda: (ev.append(('acked', i, loop.time())), fut.set_result(None))); return fut
                     ev.append(('acked', i, loop.time()))
                     if fault == 'ack_raises' and i % 2 == 0: raise ConnectionError("connection to the broker was lost on ack")
+                    if fault == 'ack_cancelled' and i % 2 == 0: raise asyncio.CancelledError("the acknowledgement's own helper task was cancelled")          # passes through callback's `except Exception`: the handler task ends CANCELLED
                 yield AckableMessage(data=m, ack=ack)
     b = B()
     @b.task(task_name="t")
@@ -144,7 +151,7 @@ def run(sc):
                                 if stop_at is None and not N: continue
                                 cfgs.append(dict(A=A, P=P, N=N or None, backlog=(A or 3) + P + (N or 0) + 5, durs=durs, stop_at=stop_at, wtt=wtt, arrivals=arrivals, fault=None))
                                 if arrivals is None and durs in ([1.0], [0.5, 30.0, 2.0]) and wtt is None and stop_at is not None:
-                                    for fault in ('sentinel_payload', 'ack_raises', 'task_cancelled'):
+                                    for fault in ('sentinel_payload', 'ack_raises', 'ack_cancelled', 'ack_future', 'task_cancelled'):
                                         cfgs.append(dict(A=A, P=P, N=N or None, backlog=(A or 3) + P + (N or 0) + 5, durs=durs, stop_at=stop_at, wtt=wtt, arrivals=arrivals, fault=fault))
     fails = []; n = 0; stats = []
     for cfg in cfgs:
